@@ -110,7 +110,7 @@ pub fn shrink_tree(t: &T) -> Vec<T> {
         for c in cut(&rs[k].content) { let mut x = rs.clone(); x[k].content = c; v.push(T::Replace(i.clone(), x)); }
         if rs[k].name.is_some() { let mut x = rs.clone(); x[k].name = None; v.push(T::Replace(i.clone(), x)); }
         if rs[k].enforce != 1 { let mut x = rs.clone(); x[k].enforce = 1; v.push(T::Replace(i.clone(), x)); }
-        if rs[k].end > rs[k].start { let mut x = rs.clone(); x[k].end -= 1; v.push(T::Replace(i.clone(), x)); }
+        if rs[k].end > rs[k].start { let mut x = rs.clone(); x[k].end -= 1; let isrc = crate::gen::src_of(i); if x[k].end as usize >= isrc.len() || isrc.is_char_boundary(x[k].end as usize) { v.push(T::Replace(i.clone(), x)); } }
       }
       for s in shrink_tree(i) {
         // keep replacement positions on char boundaries of the new inner text
@@ -178,7 +178,9 @@ fn run_worker(p: &TreeProp, cfg: &RunCfg, w: usize, n: u64, corpus: &[Case]) -> 
     }
     let fi = (p.oracle)(&case, &oi);
     let fm = (p.oracle)(&case, &om);
-    let corr = (p.project)(&case, &oi) != (p.project)(&case, &om);
+    // a case that exhibits a listed known finding is not held against the correspondence as well
+    let known_case = !fi.is_empty() && fi.iter().all(|f| (p.known)(&case, f, &oi).is_some());
+    let corr = !known_case && (p.project)(&case, &oi) != (p.project)(&case, &om);
     for f in &fi {
       r.oracle_failures += 1;
       if let Some(k) = (p.known)(&case, f, &oi) {
